@@ -27,5 +27,5 @@ CONSTANTS
   MaxOps = 1
   EmitMode = "none"
 VIEW View
-INVARIANTS TypeOK C31Arith ReducePreserves ResetImplIsRefOrKF SelfNoReset
+INVARIANTS TypeOK C31Arith ReducePreserves ResetImplIsRef SelfNoReset
 CHECK_DEADLOCK FALSE
